@@ -1,7 +1,4 @@
-import SC.Proofs.SrcLoops
-import SC.Proofs.FoldFacts
-import SC.Proofs.FoldOrb
-import SC.Proofs.Basic
+import SC.Proofs.SrcBase
 /-!
 `strcase.Compare` on the regenerated program text: the byte loop (`for i := 0; i < len(s) && i < len(t); i++`) with its three exits
 (`clamp(len(s)-len(t))`, the `_lower` comparison, the jump to the rune loop), by a loop invariant over interpreter frames.
@@ -11,13 +8,8 @@ invariant: the whole function, for all byte strings.
 namespace GoSsa.Str
 open GoSsa Gen.Src Utf8
 
-theorem find_clamp : P.find? (fun fn => fn.name == "clamp") = some str_clamp := by rfl
-theorem nb_clamp (a h) : builtin false "clamp" a h = none := by rfl
-
 theorem clamp_run (n : Int) (h : Heap) (fuel : Nat) (hf : 6 ≤ fuel) :
     run P false fuel (Frame.entry str_clamp [.int n]) h = .ok [.int (Utf8.clamp n)] h := by
-  obtain ⟨k, hk⟩ := Str.clamp n h
-  -- the bound inside `Str.clamp` is 6; re-prove at this fuel directly
   obtain ⟨m, rfl⟩ : ∃ m, fuel = m + 6 := ⟨fuel - 6, by omega⟩
   rw [Frame.entry]
   by_cases h1 : n < 0
@@ -32,147 +24,6 @@ theorem lowerLoad (b : UInt8) : Gen.Consts.strLower[b.toNat]?.getD 0 = (lower b)
   simp [List.getElem?_map, List.getElem?_range hb, Utf8.ofNat_toNat_id]
 
 theorem lowerLen : Gen.Consts.strLower.length = 256 := by decide +kernel
-
-theorem toNat_int_inj (a b : UInt8) : ((a.toNat : Int) = (b.toNat : Int)) ↔ a = b := by
-  constructor
-  · intro hh
-    have hn : a.toNat = b.toNat := by omega
-    rw [← Utf8.ofNat_toNat_id a, ← Utf8.ofNat_toNat_id b, hn]
-  · intro hh; rw [hh]
-
-theorem toNat_int_lt (a b : UInt8) : ((a.toNat : Int) < (b.toNat : Int)) ↔ a < b := by
-  rw [UInt8.lt_iff_toNat_lt]; omega
-
-theorem toU_u8_byte (a : UInt8) : toU .u8 (a.toNat : Int) = a.toNat := by
-  unfold toU bits
-  have := a.toNat_lt
-  have e : ((2 ^ 8 : Nat) : Int) = 256 := by decide
-  rw [e]; omega
-
-theorem orand_byte_all : (List.range 256).all (fun n =>
-    decide (wrap .u8 ((toU .u8 (wrap .u8 ((n : Nat) : Int)) &&& toU .u8 128 : Nat) : Int) = 0) == ((UInt8.ofNat n) &&& 0x80 == 0)) = true := by
-  decide +kernel
-
-/-- the source's test `(a|b) & 0x80 != 0` against the model's, for all pairs of bytes -/
-theorem orand_bridge (a b : UInt8) :
-    wrap .u8 ((toU .u8 (wrap .u8 ((toU .u8 (a.toNat : Int) ||| toU .u8 (b.toNat : Int) : Nat) : Int)) &&& toU .u8 128 : Nat) : Int) = 0 ↔
-      (a ||| b) &&& 0x80 = 0 := by
-  rw [toU_u8_byte, toU_u8_byte, ← UInt8.toNat_or]
-  have h := List.all_eq_true.1 orand_byte_all (a ||| b).toNat (List.mem_range.2 (a ||| b).toNat_lt)
-  rw [Utf8.ofNat_toNat_id] at h
-  have h2 := eq_of_beq h
-  constructor
-  · intro hh
-    rw [hh] at h2
-    simpa using h2.symm
-  · intro hh
-    rw [hh] at h2
-    simpa using h2
-
-theorem run_call_unfold (p : Prog) (byt : Bool) (fuel : Nat) (fn : Fn) (env : Array (List Val)) (cur d : Nat) (f : String) (args : List Opd)
-    (rest : List Instr) (term : Term) (h : Heap) :
-    run p byt (fuel + 1) ⟨fn, env, cur, .call d f args :: rest, term⟩ h =
-      match builtin byt f (args.map (Frame.val ⟨fn, env, cur, .call d f args :: rest, term⟩)) h with
-      | some (.ok vs h') => run p byt fuel { (Frame.setL ⟨fn, env, cur, .call d f args :: rest, term⟩ d vs) with code := rest } h'
-      | some e => e
-      | none =>
-        match p.find? (fun fn => fn.name == f) with
-        | none => .stuck ("no such function: " ++ f)
-        | some g =>
-          match run p byt fuel (Frame.entry g (args.map (Frame.val ⟨fn, env, cur, .call d f args :: rest, term⟩))) h with
-          | .ok vs h' => run p byt fuel { (Frame.setL ⟨fn, env, cur, .call d f args :: rest, term⟩ d vs) with code := rest } h'
-          | e => e := by
-  rfl
-
-theorem bi_DecodeRuneInString (b : Bytes) (r o : Nat) (h : Heap) :
-    builtin false "unicode/utf8.DecodeRuneInString" [.str b r o] h = some (.ok [.int (decodeRune b).1, .int (decodeRune b).2] h) := rfl
-theorem bi_CaseFold (i : Int) (h : Heap) :
-    builtin false "tables.CaseFold" [.int i] h =
-      some (.ok [.int (if Fold.caseFold (toU32 i) = toU32 i then i else (Fold.caseFold (toU32 i) : Int))] h) := rfl
-theorem bi_IndexNonASCII (b : Bytes) (r o : Nat) (h : Heap) :
-    builtin false "bytealg.IndexNonASCII" [.str b r o] h = some (.ok [.int (A.kIndexNonASCII b)] h) := rfl
-
-theorem wrap_i32_small (v : Int) (h1 : -2147483648 ≤ v) (h2 : v < 2147483648) : wrap .i32 v = v := by
-  unfold wrap toU bits signed
-  simp only [Bool.true_and]
-  have e : ((2 ^ 32 : Nat) : Int) = 4294967296 := by decide
-  have e2 : (2 ^ (32 - 1) : Nat) = 2147483648 := by decide
-  rw [e, e2]
-  split <;> rename_i hh <;> simp at hh <;> omega
-
-theorem and_le_mask (x m : Nat) : x &&& m ≤ m := Nat.and_le_right
-
-theorem decodeRune_rune_lt (s : Bytes) : (decodeRune s).1 < 0x200000 := by
-  unfold decodeRune
-  split
-  · decide
-  · rename_i b0 rest
-    have hb0 := b0.toNat_lt
-    split
-    · show b0.toNat < _; omega
-    split
-    · decide
-    split
-    · split
-      · split
-        · show _ ||| _ < _
-          have h1 : (b0.toNat &&& 0x1F) ≤ 0x1F := Nat.and_le_right
-          have h2 : ((b0.toNat &&& 0x1F) <<< 6) < 2 ^ 21 := by rw [Nat.shiftLeft_eq]; omega
-          rename_i b1 _ _
-          have h3 : (b1.toNat &&& 0x3F) < 2 ^ 21 := by have := @Nat.and_le_right b1.toNat 0x3F; omega
-          exact Nat.or_lt_two_pow h2 h3
-        · decide
-      · decide
-    split
-    · split
-      · split
-        · rename_i b1 b2 _ _
-          have h1 : ((b0.toNat &&& 0x0F) <<< 12) < 2 ^ 21 := by
-            have := @Nat.and_le_right b0.toNat 0x0F; rw [Nat.shiftLeft_eq]; omega
-          have h2 : ((b1.toNat &&& 0x3F) <<< 6) < 2 ^ 21 := by
-            have := @Nat.and_le_right b1.toNat 0x3F; rw [Nat.shiftLeft_eq]; omega
-          have h3 : (b2.toNat &&& 0x3F) < 2 ^ 21 := by have := @Nat.and_le_right b2.toNat 0x3F; omega
-          exact Nat.or_lt_two_pow (Nat.or_lt_two_pow h1 h2) h3
-        · decide
-      · decide
-    split
-    · split
-      · split
-        · rename_i b1 b2 b3 _ _
-          have h0 : ((b0.toNat &&& 0x07) <<< 18) < 2 ^ 21 := by
-            have := @Nat.and_le_right b0.toNat 0x07; rw [Nat.shiftLeft_eq]; omega
-          have h1 : ((b1.toNat &&& 0x3F) <<< 12) < 2 ^ 21 := by
-            have := @Nat.and_le_right b1.toNat 0x3F; rw [Nat.shiftLeft_eq]; omega
-          have h2 : ((b2.toNat &&& 0x3F) <<< 6) < 2 ^ 21 := by
-            have := @Nat.and_le_right b2.toNat 0x3F; rw [Nat.shiftLeft_eq]; omega
-          have h3 : (b3.toNat &&& 0x3F) < 2 ^ 21 := by have := @Nat.and_le_right b3.toNat 0x3F; omega
-          exact Nat.or_lt_two_pow (Nat.or_lt_two_pow (Nat.or_lt_two_pow h0 h1) h2) h3
-        · decide
-      · decide
-    · decide
-
-def cfValsOK : Bool := Gen.T121.cfTree.toList.all fun e => e.2.2 < 0x200000
-theorem cfValsOK_true : cfValsOK = true := by decide +kernel
-
-theorem caseFold_lt (r : Nat) (h : r < 0x200000) : Fold.caseFold r < 0x200000 := by
-  by_cases hr : Fold.caseFold r = r
-  · rw [hr]; exact h
-  · unfold Fold.caseFold at hr ⊢
-    rw [forceNat_eq] at hr ⊢
-    have hm := Fold.lookupOr_ne Gen.T121.cfTree (Fold.hashCF r) r hr
-    have := List.all_eq_true.mp cfValsOK_true _ hm
-    simpa using this
-
-theorem toU32_nat (r : Nat) (h : r < 0x200000) : toU32 (r : Int) = r := by
-  unfold toU32; omega
-
-/-- the value `tables.CaseFold(r)` returns in the interpreter, for a rune a decoder produced -/
-theorem caseFold_builtin (r : Nat) (h : r < 0x200000) :
-    (if Fold.caseFold (toU32 (r : Int)) = toU32 (r : Int) then (r : Int) else (Fold.caseFold (toU32 (r : Int)) : Int)) = (Fold.caseFold r : Int) := by
-  rw [toU32_nat r h]
-  split
-  · rename_i e; rw [e]
-  · rfl
 
 section
 variable (fold : Nat → Nat)
@@ -472,5 +323,16 @@ theorem Compare (s t : Bytes) (r0 o0 r1 o1 : Nat) (h : Heap) (hls : s.length < 4
 theorem Compare_ascii (s t : Bytes) (r0 o0 r1 o1 : Nat) (h : Heap) (hls : s.length < 4611686018427387904) (hlt : t.length < 4611686018427387904)
     (_hs : ∀ b ∈ s, b < 0x80) (_ht : ∀ b ∈ t, b < 0x80) :
     Ret P false str_Compare [.str s r0 o0, .str t r1 o1] h [.int (A.Compare (cfg false) s t)] h := Compare s t r0 o0 r1 o1 h hls hlt
+
+/-- `EqualFold(s, t) = Compare(s, t) == 0` -/
+theorem EqualFold_of_Compare (s t : Val) (h h' : Heap) (c : Int) (hC : Ret P false str_Compare [s, t] h [.int c] h') :
+    Ret P false str_EqualFold [s, t] h [.bool (decide (c = 0))] h' := by
+  obtain ⟨n, hn⟩ := hC
+  refine ⟨n + 3, fun fuel hf => ?_⟩
+  obtain ⟨m, rfl⟩ : ∃ m, fuel = m + 3 := ⟨fuel - 3, by omega⟩
+  have hC' := hn (m + 2) (by omega)
+  rw [Frame.entry]
+  src_run [str_EqualFold, str_EqualFold_b0, run_call_fn (hb := nb_Compare) (hf := find_Compare), hC']
+
 
 end GoSsa.Str
